@@ -85,6 +85,28 @@ Proof.
   now rewrite (proj2 (wrappers_forward r2 H2 env A2) k dflt Hk).
 Qed.
 
+(* EVERY keyword of EVERY entry point: each parameter of the method is a role or reaches getBH_level2 under its own
+   name, and the call passes no keyword besides the five flags (and `field`) -- no parameter is dropped or renamed *)
+Lemma wrappers_params_ok : forallb params_forwarded wrappers = true.
+Proof. vm_compute. reflexivity. Qed.
+
+Theorem wrappers_every_keyword : forall r, In r wrappers ->
+  (forall p d, In (p, d) (w_params r) -> In p (role_params r) \/ In (p, WParam p) (w_kw r)) /\
+  (forall k v, In (k, v) (w_kw r) -> In k (map fst level2_flags)).
+Proof.
+  intros r Hin. pose proof wrappers_params_ok as H. rewrite forallb_forall in H. specialize (H r Hin).
+  unfold params_forwarded in H. apply andb_true_iff in H. destruct H as [H1 H2].
+  rewrite forallb_forall in H1, H2. split.
+  - intros p d Hp. specialize (H1 _ Hp). cbn [fst snd] in H1. apply orb_true_iff in H1. destruct H1 as [H1|H1].
+    + left. unfold str_mem in H1. apply existsb_exists in H1. destruct H1 as (x & Hx & E).
+      apply String.eqb_eq in E. now subst.
+    + right. unfold passes_param in H1. apply existsb_exists in H1. destruct H1 as ([k v] & Hkv & E).
+      simpl in E. apply andb_true_iff in E. destruct E as [E1 E2]. apply String.eqb_eq in E1. subst k.
+      destruct v; simpl in E2; try discriminate. apply String.eqb_eq in E2. now subst.
+  - intros k v Hk. specialize (H2 _ Hk). cbn [fst snd] in H2. unfold str_mem in H2. apply existsb_exists in H2.
+    destruct H2 as (x & Hx & E). apply String.eqb_eq in E. now subst.
+Qed.
+
 (* the translated _validate_getBH_inputs is the hand model of Model/DictIface.v on every collection tree *)
 Lemma gen_validate_model : forall (self : mobj) (n : nat),
   gen_validate (negb (is_nil (flat_sensors self))) (negb (is_nil (flat_sources self))) n
